@@ -19,6 +19,28 @@ def _Divide(a, b, resultType: LinearIR.Type):
     return a / b
 
 
+def _Cast(value, targetType: LinearIR.Type):
+    """Cast a value to the target type. Vectors and matrices are cast
+    component by component."""
+    if isinstance(value, list):
+        return [_Cast(v, targetType) for v in value]
+
+    if not targetType.IsScalar():
+        # A component of a vector or a matrix
+        targetType = targetType.ElementType
+
+    if isinstance(targetType, LinearIR.IntegerType):
+        if not targetType.Unsigned:
+            return math.floor(value)
+        else:
+            return abs(math.floor(value))
+
+    # Must be float
+    assert isinstance(targetType, LinearIR.FloatType)
+
+    return float(value)
+
+
 class ExecutionContext:
     def __init__(self, functions, globalScope: Dict[str, Any]):
         self.__globalScope = globalScope
@@ -337,20 +359,8 @@ class ExecutionContext:
                     ref = instruction.Reference
                     var = localScope[instruction.Value.Reference]
 
-                    assert instruction.Type.IsScalar()
-
-                    if isinstance(instruction.Type, LinearIR.IntegerType):
-                        if not instruction.Type.Unsigned:
-                            var = math.floor(var)
-                        else:
-                            var = abs(math.floor(var))
-                    else:
-                        # Must be float
-                        assert isinstance(instruction.Type, LinearIR.FloatType)
-
-                        var = float(var)
-
-                    localScope[ref] = var
+                    # Vectors and matrices are cast per component
+                    localScope[ref] = _Cast(var, instruction.Type)
                 case LinearIR.OpCode.CONSTRUCT_PRIMITIVE:
                     ref = instruction.Reference
                     if instruction.Type.Kind == LinearIR.TypeKind.Vector:
